@@ -7,7 +7,8 @@
 (* reports catalogue entries the specification has no template for.           *)
 EXTENDS ArrayFnNumCat, Json, IOUtils, Integers
 CONSTANTS Seeds, DTs, ShAll, InLays, OutLays, KwKinds, KwShapes, KwDC,
-          AliasCombos   \* {<<alias, data class>>}: "N" = no aliasing
+          AliasCombos,  \* {<<alias, data class>>}: "N" = no aliasing
+          AllClsDC      \* special-value data classes run on EVERY class (unsorted data with NaNs: in-place partition/sort of an input is visible)
 Cat == JsonDeserialize(IOEnv.CAT)
 Names(k) == {Cat[k][j] : j \in 1..Len(Cat[k])}
 Catalogue == Names("handled") \cup Names("unsupported") \cup Names("default") \cup Names("methods") \cup Names("extra")
@@ -37,7 +38,11 @@ Next == /\ c = <<>>
            \* argument aliasing x special values (multi-operand classes; special values need a float type)
            \/ \E g \in {x \in GroupIdx : Groups[x].cls \in MultiOpCls} : \E fn \in Groups[g].fns \cap Catalogue, t \in Groups[g].t,
                  dt \in DTs, sh \in (IF Groups[g].sv THEN ShAll ELSE {"-"}), ac \in AliasCombos :
-                    (ac[2] = "plain" \/ dt # "i") /\ c' = CaseX(g, fn, t, sh, dt, 0, "C", "C", "", "", ac[2], 0, ac[1])
+                    (ac[2] = "plain" \/ dt # "i") /\ DataOK(Groups[g].cls, ac[2]) /\ c' = CaseX(g, fn, t, sh, dt, 0, "C", "C", "", "", ac[2], 0, ac[1])
+           \* special values on every class (no aliasing)
+           \/ \E g \in GroupIdx : \E fn \in Groups[g].fns \cap Catalogue, t \in {x \in Groups[g].t : ~HasTarget(Groups[g].cls, x)},
+                 dt \in DTs \ {"i"}, sh \in (IF Groups[g].sv THEN ShAll ELSE {"-"}), dc \in AllClsDC :
+                    DataOK(Groups[g].cls, dc) /\ c' = CaseX(g, fn, t, sh, dt, 0, "C", "C", "", "", dc, 0, "N")
            \* keyword completeness: function x keyword of NumPy's signature x value class x data class, on sizes above
            \* NumPy's small-array thresholds
            \/ \E g \in GroupIdx : \E fn \in {f \in Groups[g].fns \cap Catalogue : KindOfFn(f) \in KwKinds}, dt \in DTs, dc \in KwDC,
